@@ -324,12 +324,165 @@ pub fn check_fault(c: &FaultCase, obs: &mut Obs) -> Verdict {
 }
 
 pub fn c15_cli_faults(ctx: &Ctx) -> bool {
-    ctx.run_prop("cli_fault_sequences", RULE_FAULTS, ctx.cases(60, 1200), strat_fault, check_fault)
+    ctx.run_prop("cli_fault_sequences", RULE_FAULTS, ctx.cases(120, 1600), strat_fault, check_fault)
 }
 
 pub fn replay(name: &str, case: &Value) -> Option<Verdict> {
     match name {
         "cli_fault_sequences" => Some(replay_case::<FaultCase, _>(case, check_fault).unwrap_or_else(Verdict::Fail)),
+        "cli_fx_folder" => Some(replay_case::<crate::props::c08::Case, _>(case, check_c08_cli).unwrap_or_else(Verdict::Fail)),
         _ => None,
     }
+}
+
+// ---------------------------------------------------------------------------------------------
+// C08 (e): CLI --fx-folder and MCP get_fx_rate agree with the independent table
+// ---------------------------------------------------------------------------------------------
+
+const RULE_C08_CLI: &str = "process level: `cgt-tool report foreign.cgt --fx-folder DIR --format json` must equal `cgt-tool report gbp_twin.cgt --format json` (minus the echoed transactions), folder files written with real modification times; a needed missing rate must fail with empty stdout naming currency and month; non-trivial = the folder overrides a month the ledger uses or a rate is missing; distinct by DSL hash + folder";
+
+pub fn check_c08_cli(c: &crate::props::c08::Case, obs: &mut Obs) -> Verdict {
+    use crate::props::c08;
+    use chrono::Datelike;
+    if lgen::has_excluded_placement(&c.gl.ledger) {
+        obs.excluded += 1;
+        return Verdict::Pass;
+    }
+    let ledger = c08::apply_currencies(c);
+    let dsl = crate::led::to_dsl(&ledger);
+    obs.hash = crate::led::hash_str(&format!("{dsl}#{:?}", c.folder));
+    let table = c08::expected_table(&c.folder);
+    let sc = Scratch::new("c08");
+    sc.write_all_years_config();
+    for (i, f) in c.folder.iter().enumerate() {
+        // two files for one month need distinct names: use the two name styles / a sub-index
+        let name = format!("fx/{}", c08::file_name(f));
+        let path = if sc.path(&name).exists() { sc.path(&format!("fx/dup{i}_{:04}-{:02}.xml", f.year, f.month)) } else { sc.path(&name) };
+        let rel = path.strip_prefix(&sc.dir).expect("prefix").to_string_lossy().to_string();
+        let p = sc.write(&rel, &crate::fxtable::make_xml(f.year, f.month, &f.rows));
+        if let Ok(file) = std::fs::File::options().write(true).open(&p) {
+            let secs = f.modified.unwrap_or(0).max(1);
+            let _ = file.set_modified(std::time::UNIX_EPOCH + std::time::Duration::from_secs(secs));
+        }
+    }
+    if c.folder.is_empty() {
+        let _ = std::fs::create_dir_all(sc.path("fx"));
+    }
+    // duplicates with equal or missing mtimes have no defined winner on disk: skip those
+    let mut seen: std::collections::BTreeMap<(i32, u32), Vec<u64>> = Default::default();
+    for f in &c.folder {
+        seen.entry((f.year, f.month)).or_default().push(f.modified.unwrap_or(0).max(1));
+    }
+    if seen.values().any(|v| {
+        let mut w = v.clone();
+        w.sort();
+        w.dedup();
+        w.len() != v.len()
+    }) {
+        obs.excluded += 1;
+        return Verdict::Pass;
+    }
+    let needed: Vec<(String, i32, u32)> = ledger.iter().flat_map(|t| t.monies().into_iter().filter(|m| !m.is_gbp()).map(|m| (m.c.clone(), t.date.year(), t.date.month())).collect::<Vec<_>>()).collect();
+    let missing: Vec<&(String, i32, u32)> = needed.iter().filter(|k| !table.contains_key(*k)).collect();
+    let overrides_used = c.folder.iter().any(|f| f.rows.iter().any(|(code, _)| needed.contains(&(code.clone(), f.year, f.month))));
+    obs.nontrivial = overrides_used || !missing.is_empty();
+    obs.class_if(overrides_used, "folder_overrides_a_used_month");
+    obs.class_if(!missing.is_empty(), "needs_a_missing_rate");
+    if obs.sample.is_none() {
+        obs.sample = Some(serde_json::json!({"ledger": crate::tool::sample_of(&ledger), "folder": c.folder.iter().map(c08::file_name).collect::<Vec<_>>()}));
+    }
+    let input = sc.write("in.cgt", &(dsl.clone() + "\n"));
+    let fxdir = sc.path("fx").to_string_lossy().to_string();
+    let a = proc::run_cli(&sc, &["report", &input.to_string_lossy(), "--fx-folder", &fxdir, "--format", "json"]);
+    if a.signal.is_some() || !matches!(a.code, Some(0) | Some(1) | Some(2)) {
+        if a.code == Some(101) && a.stderr_s().contains("overflowed") {
+            return Verdict::Pass;
+        }
+        return Verdict::fail(format!("abnormal exit: {}", a.describe()));
+    }
+    if !missing.is_empty() {
+        if a.ok() || !a.stdout.is_empty() {
+            return Verdict::fail(format!("rate missing for {missing:?} but the CLI produced output: {}\n{dsl}", a.describe()));
+        }
+        let e = a.stderr_s();
+        if !missing.iter().any(|k| e.contains(&k.0) && e.contains(&format!("{}-{:02}", k.1, k.2))) {
+            return Verdict::fail(format!("CLI error does not name a missing currency and month {missing:?}: {e}"));
+        }
+        return Verdict::Pass;
+    }
+    let twin: Vec<Tx> = ledger
+        .iter()
+        .map(|t| {
+            let mut t2 = t.clone();
+            for m in t2.monies_mut() {
+                if !m.is_gbp() {
+                    let r = table[&(m.c.clone(), t.date.year(), t.date.month())];
+                    *m = crate::led::Money::gbp(m.a / r);
+                }
+            }
+            t2
+        })
+        .collect();
+    let twin_in = sc.write("twin.cgt", &(crate::led::to_dsl(&twin) + "\n"));
+    let b = proc::run_cli(&sc, &["report", &twin_in.to_string_lossy(), "--format", "json"]);
+    if a.ok() != b.ok() {
+        return Verdict::fail(format!("foreign ledger: {} but GBP twin: {}\n{dsl}", a.describe(), b.describe()));
+    }
+    if !a.ok() {
+        obs.class("both_rejected");
+        return Verdict::Pass;
+    }
+    let strip = |o: &CliOut| -> Result<Value, String> {
+        let mut v: Value = serde_json::from_slice(&o.stdout).map_err(|e| format!("output is not JSON: {e}"))?;
+        if let Some(m) = v.as_object_mut() {
+            m.remove("transactions");
+        }
+        Ok(v)
+    };
+    match (strip(&a), strip(&b)) {
+        (Ok(x), Ok(y)) => {
+            if x != y {
+                return Verdict::fail(format!("CLI report with --fx-folder differs from the GBP twin's report\n--- ledger ---\n{dsl}\n--- a ---\n{x}\n--- b ---\n{y}"));
+            }
+            Verdict::Pass
+        }
+        (Err(e), _) | (_, Err(e)) => Verdict::fail(e),
+    }
+}
+
+fn strat_c08_cli(t: Tier) -> BoxedStrategy<crate::props::c08::Case> {
+    // reuse the aimed strategy through replay-compatible construction
+    use chrono::Datelike;
+    let cfg = GenCfg::basic().secs(2).days(2, t.pick(8, 14)).dividends(true).years(2014, 2026);
+    (
+        lgen::ledger_strategy(cfg),
+        proptest::collection::vec(0u8..16, 24),
+        proptest::collection::vec(
+            (2014i32..2028, 1u32..13, any::<bool>(), prop_oneof![Just(None), (1_000u64..2_000_000_000).prop_map(Some)], proptest::collection::vec((0usize..10, 1u32..400_000, 0u32..5), 1..4)),
+            0..4,
+        ),
+        any::<bool>(),
+    )
+        .prop_map(|(gl, cur, files, aim)| {
+            const CURS: [&str; 10] = ["USD", "EUR", "JPY", "CHF", "AUD", "CAD", "INR", "ZAR", "SEK", "HKD"];
+            let months: Vec<(i32, u32)> = gl.ledger.iter().map(|t| (t.date.year(), t.date.month())).collect();
+            let folder = files
+                .into_iter()
+                .enumerate()
+                .map(|(i, (mut year, mut month, prefixed, modified, rows))| {
+                    if aim && !months.is_empty() {
+                        let (y, m) = months[(i * 7 + month as usize) % months.len()];
+                        year = y;
+                        month = m;
+                    }
+                    crate::props::c08::FolderFile { year, month, prefixed, modified, rows: rows.into_iter().map(|(c, m, s)| (CURS[c].to_string(), rust_decimal::Decimal::new(m as i64, s).to_string())).collect() }
+                })
+                .collect();
+            crate::props::c08::Case { gl, cur, folder }
+        })
+        .boxed()
+}
+
+pub fn c08_cli(ctx: &Ctx) -> bool {
+    ctx.run_prop("cli_fx_folder", RULE_C08_CLI, ctx.cases(40, 600), strat_c08_cli, check_c08_cli)
 }
